@@ -202,6 +202,8 @@ def run(ctx):
     ctx.note("traces_accepted", accepted)
     ctx.evaluations = replayed + recorded
     rep.finish()
+    from checks import _driver
+    _driver.system_tier(ctx, "C20")     # thorough: whole-driver runs against spec/Driver.tla, rejections owned by C20
     ctx.assumptions += [
         "callbacks of the loop thread (SET_KEYSPACE result, answers to the fanned-out USE) are atomic w.r.t. each other",
         "v3+ pools (HostConnection); pools added while the switch is in progress are not modelled (DESIGN 13, C20)",
@@ -212,6 +214,9 @@ def run(ctx):
 
 def replay(ctx, obj):
     from harness.replay import keyspace as rk
+    from checks import _driver
+    if _driver.is_system_replay(obj):
+        return _driver.replay_system(ctx, obj)
     if obj.get("kind") == "walk":
         conf = obj["configuration"]
         pstate = {int(p): v for p, v in conf["pstate"].items()}
